@@ -23,6 +23,11 @@ func runSource(sc Scenario, tr *Trace, seed int64) {
 			}
 			req := httptest.NewRequest(http.MethodGet, "http://front.example.com/", nil)
 			kind := str(st, "kind")
+			if extra, ok := st["extra"].(M); ok { // other headers the client chose to send: they say nothing about the source
+				for name, v := range extra {
+					req.Header.Set(name, v.(string))
+				}
+			}
 			ev := M{"e": "Extract", "kind": kind, "aid": "", "ip": "", "ipzone": "", "want": "", "wellformed": true}
 			switch kind {
 			case "ip":
